@@ -57,6 +57,9 @@ FEATURES = False
 SHELL_DEMO = None
 
 def run_checks():
+    # the generators' source-derived dictionary, from the (patched) scratch tree - as run.sh does for /repo
+    os.makedirs(f"{OUT}/work", exist_ok=True)
+    sh(f"python3 /verif/tools/mkdict.py {WT} {OUT}/work/dict.json")
     r = sh(f"cargo build -q -p dv_gen && {SE}/target/debug/dv_gen 1 generated/src/types.rs && cargo build -q -p dv_check && cargo build -q -p dv_http", cwd=MH)
     if r.returncode:
         return {"build_error": r.stderr[-2000:]}
